@@ -40,6 +40,16 @@ def _operand(kind, ys):
     return (y for y in list(ys))
 
 
+def _derived(kind, recv, m, d):
+    """Operands derived from the receiver itself (kinds 6-8): the receiver, a generator
+    over it, a lazy filter over it.  Returns (operand, model of its elements)."""
+    if kind == 6:
+        return recv, list(m)
+    if kind == 7:
+        return (x for x in recv), list(m)
+    return filter(lambda x: x != d, recv), [x for x in m if x != d]
+
+
 def _same(os_, model) -> bool:
     """Same elements, same order, through every read API."""
     items = list(os_)
@@ -146,7 +156,7 @@ def _binop_model(op, m, my):
 
 def h_binop(op: int, kind: int, n: int, a: int, b: int, c: int, k: int, d: int, e: int) -> bool:
     """
-    pre: 0 <= op < 4 and 0 <= kind < 6
+    pre: 0 <= op < 4 and 0 <= kind < 9
     pre: 0 <= n <= 3 and 0 <= a < 3 and 0 <= b < 3 and 0 <= c < 3
     pre: 0 <= k <= 2 and 0 <= d < 3 and 0 <= e < 3
     post: _
@@ -154,12 +164,17 @@ def h_binop(op: int, kind: int, n: int, a: int, b: int, c: int, k: int, d: int, 
     xs = _mk(n, a, b, c)
     ys = [d, e][:k]
     m, my = _uniq(xs), _uniq(ys)
-    want = _binop_model(op, m, my)
     s = OrderedSet(xs)
     f = FrozenOrderedSet(xs)
     meth = ("union", "intersection", "difference", "symmetric_difference")[op]
-    r1 = getattr(s, meth)(_operand(kind, ys))
-    r2 = getattr(f, meth)(_operand(kind, ys))
+    if kind >= 6:
+        o1, my = _derived(kind, s, m, d)
+        o2, _my = _derived(kind, f, m, d)
+    else:
+        o1, o2 = _operand(kind, ys), _operand(kind, ys)
+    want = _binop_model(op, m, my)
+    r1 = getattr(s, meth)(o1)
+    r2 = getattr(f, meth)(o2)
     ok = _same(r1, want) and _same(r2, want) and type(r1) is OrderedSet and type(r2) is FrozenOrderedSet
     ok = ok and _same(s, m) and _same(f, m)  # receiver unchanged
     if kind in (2, 3):  # operator forms need a set operand
@@ -178,7 +193,7 @@ def h_binop(op: int, kind: int, n: int, a: int, b: int, c: int, k: int, d: int, 
 
 def h_inplace(op: int, kind: int, n: int, a: int, b: int, c: int, k: int, d: int, e: int) -> bool:
     """
-    pre: 0 <= op < 4 and 0 <= kind < 6
+    pre: 0 <= op < 4 and 0 <= kind < 9
     pre: 0 <= n <= 3 and 0 <= a < 3 and 0 <= b < 3 and 0 <= c < 3
     pre: 0 <= k <= 2 and 0 <= d < 3 and 0 <= e < 3
     post: _
@@ -186,10 +201,14 @@ def h_inplace(op: int, kind: int, n: int, a: int, b: int, c: int, k: int, d: int
     xs = _mk(n, a, b, c)
     ys = [d, e][:k]
     m, my = _uniq(xs), _uniq(ys)
-    want = _binop_model(op, m, my)
     s = OrderedSet(xs)
     meth = ("update", "intersection_update", "difference_update", "symmetric_difference_update")[op]
-    r = getattr(s, meth)(_operand(kind, ys))
+    if kind >= 6:
+        operand, my = _derived(kind, s, m, d)
+    else:
+        operand = _operand(kind, ys)
+    want = _binop_model(op, m, my)
+    r = getattr(s, meth)(operand)
     ok = r is None and _same(s, want)
     if kind in (2, 3):
         t = OrderedSet(xs)
@@ -338,7 +357,7 @@ META = {
     "functions": ["pynguin.utils.orderedset._AbstractOrderedSet.*", "OrderedSet.*", "FrozenOrderedSet.__hash__/__eq__",
                   "OrderedTypeSet.*"],
     "bounds": {"receiver_len": "<=3 (history: <=2)", "operand_len": "<=2", "element_values": "[0,3)", "operand_kinds":
-               "list, tuple, OrderedSet, FrozenOrderedSet, iterator, generator", "history_len": 3,
+               "list, tuple, OrderedSet, FrozenOrderedSet, iterator, generator, the receiver itself, generator/filter over the receiver", "history_len": 3,
                "typeset": "quick: receiver <=2 of 5 type codes; thorough <=3"},
     "outside": ["elements other than small ints / three builtin types", "longer sets and histories", "slicing",
                 "unhashable elements"],
@@ -365,9 +384,9 @@ def obligations(tier: str):
         obs.append(Chx("history", h_history, timeout=T, fix={"h": 2}, split={"o1": list(range(6))}))
     else:
         obs.append(Chx("history", h_history, timeout=T, fix={"h": 3}, split={"o1": list(range(6)), "o2": list(range(6))}))
-    kinds = list(range(6))
+    kinds = list(range(9))
     for op in range(4):
         obs.append(Chx(f"binop{op}", h_binop, timeout=T, fix={"op": op}, split={"kind": kinds, "n": ns}))
         obs.append(Chx(f"inplace{op}", h_inplace, timeout=T, fix={"op": op}, split={"kind": kinds, "n": ns}))
-    obs.append(Chx("relations", h_relations, timeout=T, split={"kind": kinds, "n": ns}))
+    obs.append(Chx("relations", h_relations, timeout=T, split={"kind": list(range(6)), "n": ns}))
     return obs
